@@ -31,7 +31,7 @@ CHECKS.update({
  "C07": ("exploration", "runtime monitor: recorded sample/runner history + independent decision-rule model",
          "The three sequential workflows run on streams that encode a chosen s x items result matrix (stub runners at the registry seam; their second statistics P2/Q2 are chosen independently and must not influence the verdict) covering every pass count for every item and the uniformity boundary on both sides, (including the float64 neighbours of the bin edges) plus real-runner runs, history chains (a failing/faulting/Fast run first, then an accepted stream in the same process, shuffled order), exact-length streams whose last bytes arrive with io.EOF, and device/pipe sources; verdict, error/verdict consistency, named item, sample splitting (history checker) and tail independence are decided per run.", WF, "4/C07"),
  "C08": ("exploration", "runtime monitor: differential history check under schedule perturbation + Go race detector",
-         "Each Fast workflow is run repeatedly on verdict-sensitive streams under seeded delays in Read/runners, GOMAXPROCS 1..16 and 1/2/3/16 workers (taskset) and compared with the sequential run on the same bytes; every judged sample must be one stream chunk judged once by the expected items; also with stalling sources (1..150 empty reads; one 10 s stall), a slow source, a source that runs a Fast detection of its own inside Read, several Fast detections at the same time in one process (plain and -race builds), seekable reader types at non-zero positions and history pre-steps; a share of the runs is executed in a -race build and DATA RACE reports are violations.", WF, "4/C08"),
+         "Each Fast workflow is run repeatedly on verdict-sensitive streams under seeded delays in Read/runners, GOMAXPROCS 1..16 and 1/2/3/16 workers (taskset) and compared with the sequential run on the same bytes; every judged sample must be one stream chunk judged once by the expected items; also with stalling sources (1..150 empty reads; one 10 s stall), a slow source, a source that runs a Fast detection of its own inside Read, several Fast detections at the same time in one process (plain and -race builds), seekable reader types at non-zero positions, finite sources cut on a sample boundary (0, 1, S/2, S-1 whole samples) and history pre-steps; a share of the runs is executed in a -race build and DATA RACE reports are violations.", WF, "4/C08"),
  "C09": ("fault_enumeration", "runtime monitor: fault injection at the source + Go deadlock detector + goroutine census",
          "Source failures are enumerated over offsets (0,1,B+-1, sample boundaries +-1, last sample, round absolute offsets, seeded) x failure kinds (EOF, unexpected EOF, custom, temporary-class/EAGAIN, EINTR plain and wrapped, error together with a partial read) x sticky/transient x 7 workflow functions, under whole and short reads, including 8*10^6-byte single-shot requests; judged samples must still be stream chunks; each run must return (hang decided by the runtime's deadlock detector in a plain child), false, non-nil error, no blocked goroutine left, bounded events after the fault (at most 20000 reads after a permanent failure); a share re-runs under -race.", WF, "4/C09"),
  "C10": ("exploration", "runtime monitor: exactly-once / no-stale sample history checker over read-size plans",
